@@ -13,7 +13,23 @@ sys.dont_write_bytecode = True
 from harness import common  # noqa: E402
 
 
+def _reset_signals():
+    """A check may be started from a shell that ignores SIGINT/SIGQUIT/SIGHUP (background job, nohup). Ignored signals
+    are inherited by every child, so a scripted command that kills itself with such a signal would survive and the
+    run would differ from a foreground run. Give this process, and thereby its children, the default dispositions."""
+    import signal
+    for name in ("SIGINT", "SIGQUIT", "SIGHUP", "SIGTERM", "SIGUSR1", "SIGUSR2", "SIGALRM", "SIGSEGV", "SIGABRT", "SIGFPE", "SIGILL", "SIGBUS"):
+        sig = getattr(signal, name, None)
+        if sig is not None:
+            try:
+                signal.signal(sig, signal.SIG_DFL)
+            except (OSError, ValueError, RuntimeError):
+                pass
+    signal.signal(signal.SIGINT, signal.default_int_handler)
+
+
 def main() -> int:
+    _reset_signals()
     ap = argparse.ArgumentParser()
     ap.add_argument("prop")
     ap.add_argument("--tier", default=os.environ.get("VERIF_TIER", "quick"))
